@@ -144,6 +144,59 @@ let handle (line : string) : string =
                 Printf.sprintf "%s %s %s %s %s %d %d %s" (hex_of_z !got) (hex_of_z pfull) (hex_of_z pb) (hex_of_z pm) (hex_of_z pa)
                   (List.length !left.l_ptrs) (if !left.l_full then 1 else 0) (fmt_state !right)
             | _ -> "?"))
+  | "PX" :: kd :: rest ->
+      (* partial.hh with an explicit script of instalments:
+         PX <kind> before.. ; between.. ; after.. ; script..      script tokens: b<c> / B<c> = RevealBefore with the first c words
+         (upper case: reveal_full set), a<c> / A<c> = RevealAfter with the first c pointers (upper case: reveal.full set),
+         bF / aF = the closing calls; `seen` is the previous cut of that side.  An empty script answers "I <before right length>
+         <before left full> <after left length> <after left full>" so that the harness can write valid scripts. *)
+      (match (if kd = "P" then !tp else if kd = "R" then !tr else !tt) with
+       | LoadError _ -> "not-loaded"
+       | Loaded t ->
+           let tl = alookup t in
+           let n = nat_of_int !order in
+           let dr = (kd = "R") in
+           let rec splitraw acc cur = function
+             | ";" :: r -> splitraw (List.rev cur :: acc) [] r
+             | x :: r -> splitraw acc (x :: cur) r
+             | [] -> List.rev (List.rev cur :: acc) in
+           (match splitraw [] [] rest with
+            | [before; between; after; script] ->
+                let before = List.map n_of_hex before and between = List.map n_of_hex between and after = List.map n_of_hex after in
+                let frag ws = eval_tree n tl dr null_state (Rule (false, false, List.map (fun w -> Term w) ws)) in
+                let (cfull, pfull) = frag (before @ between @ after) in
+                let (cb, pb) = frag before and (cm, pm) = frag between and (ca, pa) = frag after in
+                let bl = List.length cb.c_right.s_words and al = List.length ca.c_left.l_ptrs in
+                if script = [] then
+                  Printf.sprintf "I %d %d %d %d" bl (if cb.c_left.l_full then 1 else 0) al (if ca.c_left.l_full then 1 else 0)
+                else begin
+                  let left = ref cm.c_left and right = ref cm.c_right and got = ref Z0 in
+                  let firstn k l = List.filteri (fun i _ -> i < k) l in
+                  let sb = ref 0 and sa = ref 0 in
+                  List.iter (fun tok ->
+                      let k = tok.[0] and arg = String.sub tok 1 (String.length tok - 1) in
+                      if arg = "F" then begin
+                        if k = 'b' then begin
+                          let rv = { s_words = firstn bl cb.c_right.s_words; s_bo = firstn bl cb.c_right.s_bo } in
+                          let ((a, l'), r') = reveal_before n tl dr rv (nat_of_int bl) true !left !right in
+                          got := Z.add !got a; left := l'; right := r' end
+                        else begin
+                          let rv = { l_ptrs = firstn al ca.c_left.l_ptrs; l_full = true } in
+                          let ((a, l'), r') = reveal_after n tl dr !left !right rv (nat_of_int al) in
+                          got := Z.add !got a; left := l'; right := r' end end
+                      else begin
+                        let c = int_of_string arg in
+                        if k = 'b' || k = 'B' then begin
+                          let rv = { s_words = firstn c cb.c_right.s_words; s_bo = firstn c cb.c_right.s_bo } in
+                          let ((a, l'), r') = reveal_before n tl dr rv (nat_of_int !sb) (k = 'B') !left !right in
+                          got := Z.add !got a; left := l'; right := r'; sb := c end
+                        else begin
+                          let rv = { l_ptrs = firstn c ca.c_left.l_ptrs; l_full = (k = 'A') } in
+                          let ((a, l'), r') = reveal_after n tl dr !left !right rv (nat_of_int !sa) in
+                          got := Z.add !got a; left := l'; right := r'; sa := c end end) script;
+                  Printf.sprintf "%s %s %s %s %s %d %d %s" (hex_of_z !got) (hex_of_z pfull) (hex_of_z pb) (hex_of_z pm) (hex_of_z pa)
+                    (List.length !left.l_ptrs) (if !left.l_full then 1 else 0) (fmt_state !right) end
+            | _ -> "?"))
   | "SUB" :: kd :: rest ->
       (* Subsume: U <kind> first.. ; second..  -> adjust full first second, merged left length/full, merged right *)
       (match (if kd = "P" then !tp else if kd = "R" then !tr else !tt) with
